@@ -31,6 +31,7 @@ pub struct HuffQWaveletTree<T, RS, const WITH_PREFETCH_SUPPORT: bool = false> {
     prefetch_support: Option<Vec<PrefetchSupport>>,
 }
 
+#[cfg_attr(qwt_verif, derive(Clone))]
 struct LenInfo(usize, u32); //symbol, len
 
 #[allow(clippy::identity_op)]
@@ -42,6 +43,9 @@ fn craft_wm_codes(freq: &mut HashMap<usize, u32>, sigma: usize) -> Vec<PrefixCod
         .iter()
         .map(|(&k, &v)| LenInfo(k, v * 2)) // each fragment is 2 bits
         .collect::<Vec<_>>();
+
+    #[cfg(qwt_verif)]
+    crate::verif_hooks::order_equal_length_symbols(&mut f, |x| x.0, |x| x.1);
 
     f.sort_by_key(|x| x.1);
 
@@ -136,6 +140,9 @@ where
 
         let mut lengths =
             Coding::from_frequencies_cloned(BitsPerFragment(2), &freqs).code_lengths();
+
+        #[cfg(qwt_verif)]
+        crate::verif_hooks::permute_lengths_among_equal_freqs(&freqs, &mut lengths);
 
         // println!("lengths: {:?}", &lengths);
 
